@@ -79,7 +79,8 @@ func init() {
 		m.blockUntil("Mutex.Lock", func() bool { return !ms.locked && ms.readers == 0 })
 		ms.locked = true
 		ms.owner = m.cur
-		joinVC(&m.cur.vc, ms.vc)
+		m.acq(ms.vc, "models.go#1")
+		m.acq(ms.rvc, "models.go#2") // a writer also comes after every reader that released before it
 		m.lockEvent(p, "lock")
 		return nil
 	}
@@ -92,7 +93,7 @@ func init() {
 		}
 		ms.locked = true
 		ms.owner = m.cur
-		joinVC(&m.cur.vc, ms.vc)
+		m.acq(ms.vc, "models.go#3")
 		return tTrue
 	}
 	intrinsics["(*sync.Mutex).Unlock"] = func(m *Machine, fr *frame, a []Value) Value {
@@ -117,7 +118,7 @@ func init() {
 		m.schedPoint("rlock")
 		m.blockUntil("RWMutex.RLock", func() bool { return !ms.locked })
 		ms.readers++
-		joinVC(&m.cur.vc, ms.vc)
+		m.acq(ms.vc, "models.go#4")
 		m.lockEvent(p, "rlock")
 		return nil
 	}
@@ -128,7 +129,7 @@ func init() {
 			panic(targetPanic{Iface{T: m.runtimeErrorString, V: ConcStr("sync: RUnlock of unlocked RWMutex")}})
 		}
 		m.tick(m.cur)
-		joinVC(&ms.vc, m.cur.vc)
+		joinVC(&ms.rvc, m.cur.vc) // readers do not synchronise with one another, only with the next writer
 		ms.readers--
 		m.lockEvent(p, "runlock")
 		m.schedPoint("runlock")
@@ -164,7 +165,7 @@ func init() {
 		w := wg(m, a[0].(*Value))
 		m.schedPoint("wg.wait")
 		m.blockUntil("WaitGroup.Wait", func() bool { return w.n == 0 })
-		joinVC(&m.cur.vc, w.vc)
+		m.acq(w.vc, "models.go#5")
 		return nil
 	}
 	// ---------- sync.Once ----------
@@ -177,12 +178,12 @@ func init() {
 		}
 		m.schedPoint("once")
 		if o.done {
-			joinVC(&m.cur.vc, o.vc)
+			m.acq(o.vc, "models.go#6")
 			return nil
 		}
 		if o.running {
 			m.blockUntil("Once.Do", func() bool { return o.done })
-			joinVC(&m.cur.vc, o.vc)
+			m.acq(o.vc, "models.go#7")
 			return nil
 		}
 		o.running = true
@@ -372,6 +373,12 @@ func init() {
 		t.fire = func() {
 			if f != nil {
 				g := m.newG("AfterFunc", nil)
+				// the callback happens after the timer's creation, not after whatever goroutine ran last
+				g.vc = append([]int{}, t.vc...)
+				for len(g.vc) <= g.id {
+					g.vc = append(g.vc, 0)
+				}
+				g.vc[g.id] = 1
 				g.fn = func() { m.call(nil, 0, f, nil) }
 			} else {
 				c.buf = append(c.buf, m.timeStruct(m.now))
